@@ -3,10 +3,15 @@
 (* at most MaxTok tokens - every prefix, every deletion, duplication,       *)
 (* adjacent swap and substitution by each of the NSubst token kinds.  The   *)
 (* harness applies every edit whose position exists to every corpus program.*)
+(* OnlySubst = TRUE: only substitutions (by the first NSubst spellings:      *)
+(* values and names), applied to long generated programs - every operand of  *)
+(* every operator is replaced by a value of another type.                    *)
 EXTENDS Naturals, TLC, Json
-CONSTANTS MaxTok, NSubst
+CONSTANTS MaxTok, NSubst, OnlySubst
 VARIABLE e
-Edits == {[k |-> "prefix", pos |-> p, tok |-> 0] : p \in 0..MaxTok}
+Subst == {[k |-> "subst", pos |-> p, tok |-> t] : p \in 1..MaxTok, t \in 1..NSubst}
+Edits == IF OnlySubst THEN Subst ELSE
+         {[k |-> "prefix", pos |-> p, tok |-> 0] : p \in 0..MaxTok}
          \cup {[k |-> "delete", pos |-> p, tok |-> 0] : p \in 1..MaxTok}
          \cup {[k |-> "dup", pos |-> p, tok |-> 0] : p \in 1..MaxTok}
          \cup {[k |-> "swap", pos |-> p, tok |-> 0] : p \in 1..(MaxTok - 1)}
